@@ -307,6 +307,10 @@ def scale_shapes():
         # cell): were one to build, the result is judged like any other schema
         S("float", call(3.146), ("precision", 2), ("min", 3.15)), S("float", call(1.26), ("precision", 1), ("min", 1.28)),
         S("float", call(3.154), ("precision", 2), ("max", 3.15)), S("float", ("precision", 1), call(0.34), ("max", 0.3)),
+        # must be REFUSED: a float schema pinned to an int beyond the float range; a non-schema as a
+        # later operand of | / member of any
+        S("float", call(10 ** 309)), S("float", call(10 ** 309), ("precision", 2)), S("float", ("min", 10 ** 400)),
+        ("or", ("or", INT, STR), ("raw", None)), ("or", ("any", (INT, STR)), ("raw", 5)), ("any", (INT, STR, ("raw", None))),
         # unions built from smaller unions whose alternatives overlap across nesting levels
         ("any", (("any", (INT, STR)), INT)), ("or", ("or", INT, STR), INT), ("any", (("any", (INT, STR)), ("any", (STR, NONE)))),
         ("or", ("or", INT, NONE), ("or", NONE, STR)),
